@@ -6,10 +6,21 @@
 EXTENDS Naturals, Sequences, FiniteSets, TLC, Json
 CONSTANTS TraceFile, Check
 Tr == ndJsonDeserialize(TraceFile)
-VARIABLES l, obs, ev
-vars == <<l, obs, ev>>
-Init == l = 2 /\ obs = Tr[1].post /\ ev = "Reset"
-Step == l <= Len(Tr) /\ l' = l + 1 /\ obs' = Tr[l].post /\ ev' = Tr[l].ev
+VARIABLES l, obs, ev,
+          hit,    \* history: writers that were in flight when an abort took effect since they entered
+          who     \* process of the last step
+vars == <<l, obs, ev, hit, who>>
+InFlightPCs == {"w_write", "f_load", "f_caslast", "f_cas"}
+Init == l = 2 /\ obs = Tr[1].post /\ ev = "Reset" /\ hit = {} /\ who = "-"
+Step == /\ l <= Len(Tr) /\ l' = l + 1 /\ obs' = Tr[l].post /\ ev' = Tr[l].ev
+        /\ who' = (IF "p" \in DOMAIN Tr[l] THEN Tr[l].p ELSE "-")
+        /\ LET e == Tr[l] IN
+           hit' = CASE e.ev = "Reset" -> {}
+                    \* the writer's CAS succeeded: it is inside the socket write now
+                    [] e.ev = "WCas" /\ e.post.pc[e.p] = "w_write" -> hit \ {e.p}
+                    \* the aborter's CAS succeeded: the blocked bit is set, every writer in flight is being aborted
+                    [] e.ev = "ACas" /\ e.post.pc[e.p] = "a_arm" -> hit \cup {w \in DOMAIN obs.left : obs.pc[w] \in InFlightPCs}
+                    [] OTHER -> hit
 Spec == Init /\ [][Step]_vars
 Procs == DOMAIN obs.pc
 Writers == DOMAIN obs.left
@@ -21,10 +32,14 @@ LaterWritesSucceed == ev = "Probe" => obs.probe = "ok"
 \* liveness, judged at the end of the bounded fair gated drain: nobody is left spinning or blocked
 NoStuckWriter == ev = "Drain" => AllDone
 \* the counter equals the number of writers between start and finish
-InFlight == Cardinality({p \in Writers : obs.pc[p] \in {"w_write", "f_load", "f_caslast", "f_cas"}})
+InFlight == Cardinality({p \in Writers : obs.pc[p] \in InFlightPCs})
+\* nobody's write fails with a timeout unless an abort took effect while that write was in flight
+\* (hit already reflects this step, which never changes it for a write)
+NoSpuriousTimeout == ev = "WWriteTmo" => who \in hit
 CountExact == obs.st.n = InFlight
 P(n) == CASE n = "Clean" -> Clean [] n = "LaterWritesSucceed" -> LaterWritesSucceed
           [] n = "NoStuckWriter" -> NoStuckWriter [] n = "CountExact" -> CountExact
+          [] n = "NoSpuriousTimeout" -> NoSpuriousTimeout
 Report == \A n \in Check : P(n) \/ PrintT(<<"VIOL", n, l - 1>>)
 Done == IF TLCGet("stats").diameter = Len(Tr) THEN TRUE
         ELSE Print(<<"MONITOR_STOPPED_AT", TLCGet("stats").diameter + 1, Len(Tr)>>, FALSE)
